@@ -17,17 +17,17 @@ THEOREMS = ["Mistune.iterRender_shape",
             "Mistune.atxRule_lookup", "Mistune.thematicRule_lookup", "Mistune.atxRule_matchAt_hit", "Mistune.atxRule_matchAt_iff", "Mistune.atx_line_token",
             "Mistune.thematicRule_matchAt_hit", "Mistune.thematicRule_matchAt_iff", "Mistune.atxSpec_blank_fixed_iff", "Mistune.md_heading_roundtrip", "Mistune.md_thematic_break_roundtrip",
             # one iteration of BlockParser.parse on a written heading / thematic break, and whole documents made of them
-            "Mistune.md_heading_step", "Mistune.md_thematic_break_step", "Mistune.blank_line_step", "Mistune.leafDoc_blockParse"]
-# (re-enabled when C13Quote is imported again)
-QUOTE_THEOREMS = [
+            "Mistune.md_heading_step", "Mistune.md_thematic_break_step", "Mistune.blank_line_step", "Mistune.leafDoc_blockParse",
             # block quotes: what MarkdownRenderer.block_quote writes (exactly), the rule block_quote fires on it, extract_block_quote / parse_block_quote give back exactly the
             # rendered children (minus the trailing empty quote lines the renderer drops), one iteration of BlockParser.parse consumes exactly what was written
             "Mistune.indentAll_lines", "Mistune.md_block_quote_lines", "Mistune.md_block_quote_lines_last", "Mistune.blockQuoteRule_matchAt_hit", "Mistune.quoteBreakSc_ok",
             "Mistune.quoteRules_ok", "Mistune.md_block_quote_extract", "Mistune.md_block_quote_roundtrip", "Mistune.md_block_quote_step",
             # ... and nesting: require_marker decided by the first character, the quote that ends its subject, the child parse of a quote whose only child is a quote, two levels
             "Mistune.reqMarker_false_of_first", "Mistune.quoteReqSc_gt_ok", "Mistune.md_block_quote_extract_eos", "Mistune.md_block_quote_step_eos", "Mistune.md_quote_only_parse",
-            "Mistune.md_block_quote_nested"]
-
+            "Mistune.md_block_quote_nested",
+            # the plugin spoiler rebinds the handler of block_quote: under NotSpoiler (plugin absent, nested quote, or text not matched by _BLOCK_SPOILER_MATCH) the dispatch computes parse_block_quote
+            "Mistune.parseBlockSpoiler_eq_quote", "Mistune.parseMethod_quote", "Mistune.notSpoiler_of_first", "Mistune.spoilerMatch_gt_ok", "Mistune.notSpoiler_gt",
+            "Mistune.spoilerActive_cfgs"]
 
 
 def strip_ref(tokens):
